@@ -1,14 +1,15 @@
 package main
 
 // Translator table for C15: the string constants of pkg/ignore/rules.go the model of the ignore
-// rules depends on -- the built-in rule AddDefaults installs, the infix parseRule refuses, the name
-// of its filepath.Match probe, the comment / negation / directory markers -- read from the source
-// with go/ast into coq/Gen/IgnoreConsts.v.  Props/C15.v holds them against the model
+// rules depends on -- the built-in rules AddDefaults installs and the names of parseRule's
+// filepath.Match probe -- read from the source with go/ast into coq/Gen/IgnoreConsts.v, by value
+// (literals, constants, local variables, concatenations, same-package helpers), not by text.  Props/C15.v holds them against the model
 // (C15_ignore_constants).
 
 import (
 	"fmt"
 	"go/ast"
+	"go/token"
 	"strings"
 
 	"verif/harness/internal/hx"
@@ -25,20 +26,122 @@ func c15FuncDecl(f *ast.File, name string) *ast.FuncDecl {
 	return nil
 }
 
-// c15CallLits: the string literals at argument position argIdx of every call of pkg.fn / recv.fn in the body, in source order
-func c15CallLits(body ast.Node, fn string, argIdx int) []string {
+// c15PkgStrings: package-level string constants / variables with a literal (or concatenated) value
+func c15PkgStrings(f *ast.File) map[string]string {
+	m := map[string]string{}
+	for pass := 0; pass < 3; pass++ { // constants defined from other constants
+		for _, d := range f.Decls {
+			gd, ok := d.(*ast.GenDecl)
+			if !ok || (gd.Tok != token.CONST && gd.Tok != token.VAR) {
+				continue
+			}
+			for _, sp := range gd.Specs {
+				vs, ok := sp.(*ast.ValueSpec)
+				if !ok {
+					continue
+				}
+				for i, n := range vs.Names {
+					if i < len(vs.Values) {
+						if v, ok := c15StrValue(vs.Values[i], m, nil); ok {
+							m[n.Name] = v
+						}
+					}
+				}
+			}
+		}
+	}
+	return m
+}
+
+// c15StrValue: the value of a string expression: a literal, a known constant, a local variable
+// assigned once from such a value, a parenthesised or concatenated expression
+func c15StrValue(e ast.Expr, pkg, local map[string]string) (string, bool) {
+	switch v := e.(type) {
+	case *ast.BasicLit:
+		return strLit(v)
+	case *ast.ParenExpr:
+		return c15StrValue(v.X, pkg, local)
+	case *ast.Ident:
+		if s, ok := local[v.Name]; ok {
+			return s, true
+		}
+		s, ok := pkg[v.Name]
+		return s, ok
+	case *ast.BinaryExpr:
+		if v.Op == token.ADD {
+			a, ok1 := c15StrValue(v.X, pkg, local)
+			b, ok2 := c15StrValue(v.Y, pkg, local)
+			return a + b, ok1 && ok2
+		}
+	case *ast.CallExpr: // string(x) conversions
+		if id, ok := v.Fun.(*ast.Ident); ok && id.Name == "string" && len(v.Args) == 1 {
+			return c15StrValue(v.Args[0], pkg, local)
+		}
+	}
+	return "", false
+}
+
+// c15Locals: local variables of a function body defined by `x := <string value>` / `const x = ...`
+func c15Locals(body ast.Node, pkg map[string]string) map[string]string {
+	loc := map[string]string{}
+	ast.Inspect(body, func(n ast.Node) bool {
+		switch v := n.(type) {
+		case *ast.AssignStmt:
+			if v.Tok == token.DEFINE && len(v.Lhs) == len(v.Rhs) {
+				for i, l := range v.Lhs {
+					if id, ok := l.(*ast.Ident); ok {
+						if s, ok := c15StrValue(v.Rhs[i], pkg, loc); ok {
+							loc[id.Name] = s
+						}
+					}
+				}
+			}
+		case *ast.GenDecl:
+			for _, sp := range v.Specs {
+				if vs, ok := sp.(*ast.ValueSpec); ok {
+					for i, nm := range vs.Names {
+						if i < len(vs.Values) {
+							if s, ok := c15StrValue(vs.Values[i], pkg, loc); ok {
+								loc[nm.Name] = s
+							}
+						}
+					}
+				}
+			}
+		}
+		return true
+	})
+	return loc
+}
+
+// c15CallArgs: the string values at argument position argIdx of every call of x.fn / fn in the body
+// (following same-package helper functions one level: a call of a package function whose body makes
+// the calls), in source order
+func c15CallArgs(f *ast.File, body ast.Node, fn string, argIdx int, pkg map[string]string, depth int) []string {
 	var out []string
+	loc := c15Locals(body, pkg)
 	ast.Inspect(body, func(n ast.Node) bool {
 		c, ok := n.(*ast.CallExpr)
 		if !ok {
 			return true
 		}
-		sel, ok := c.Fun.(*ast.SelectorExpr)
-		if !ok || sel.Sel.Name != fn || len(c.Args) <= argIdx {
+		name := ""
+		switch fun := c.Fun.(type) {
+		case *ast.SelectorExpr:
+			name = fun.Sel.Name
+		case *ast.Ident:
+			name = fun.Name
+		}
+		if name == fn && len(c.Args) > argIdx {
+			if s, ok := c15StrValue(c.Args[argIdx], pkg, loc); ok {
+				out = append(out, s)
+			}
 			return true
 		}
-		if s, ok := strLit(c.Args[argIdx]); ok {
-			out = append(out, s)
+		if depth > 0 && name != "" {
+			if helper := c15FuncDecl(f, name); helper != nil && helper.Body != nil {
+				out = append(out, c15CallArgs(f, helper.Body, fn, argIdx, pkg, depth-1)...)
+			}
 		}
 		return true
 	})
@@ -54,17 +157,27 @@ func genIgnoreConsts(repo string) (string, error) {
 	if ad == nil || pr == nil {
 		return "", fmt.Errorf("AddDefaults / parseRule not found in pkg/ignore/rules.go")
 	}
-	defaults := c15CallLits(ad.Body, "parseRule", 0)
-	refused := c15CallLits(pr.Body, "Contains", 1)
-	probes := c15CallLits(pr.Body, "Match", 1)
-	prefixes := c15CallLits(pr.Body, "HasPrefix", 1)
-	suffixes := c15CallLits(pr.Body, "HasSuffix", 1)
+	pkg := c15PkgStrings(f)
+	// meaning, not text: the rules AddDefaults hands to parseRule (through constants, local
+	// variables, concatenations and same-package helpers), and the names parseRule probes
+	// filepath.Match with; duplicates removed, order kept
+	defaults := c15Uniq(c15CallArgs(f, ad.Body, "parseRule", 0, pkg, 2))
+	probes := c15Uniq(c15CallArgs(f, pr.Body, "Match", 1, pkg, 2))
 	var b strings.Builder
 	b.WriteString("(* pkg/ignore/rules.go *)\n")
 	b.WriteString("Definition ignore_default_rules : list string := " + hx.CoqStrList(defaults) + ".\n")
-	b.WriteString("Definition ignore_contains_checks : list string := " + hx.CoqStrList(refused) + ".\n")
 	b.WriteString("Definition ignore_match_probes : list string := " + hx.CoqStrList(probes) + ".\n")
-	b.WriteString("Definition ignore_prefix_checks : list string := " + hx.CoqStrList(prefixes) + ".\n")
-	b.WriteString("Definition ignore_suffix_checks : list string := " + hx.CoqStrList(suffixes) + ".\n")
 	return b.String(), nil
+}
+
+func c15Uniq(l []string) []string {
+	seen := map[string]bool{}
+	var out []string
+	for _, s := range l {
+		if !seen[s] {
+			seen[s] = true
+			out = append(out, s)
+		}
+	}
+	return out
 }
